@@ -107,6 +107,9 @@ def corpus(tier, seed):
             calls.append("c_linalg<%s,%d>(%du);" % (t, n, sd()))
     for (m, k, n) in [(2, 2, 2), (3, 5, 7)] + ([] if tier == "quick" else [(4, 4, 4), (1, 3, 9), (6, 2, 11)]):
         calls.append("c_nonprim<%d,%d,%d>(%du);" % (m, k, n, sd()))
+    for t in (["double"] if tier == "quick" else TYPES):
+        for (a, b, c) in ([(2, 3, 4)] if tier == "quick" else [(2, 3, 4), (4, 3, 2), (3, 3, 3), (2, 5, 3)]):
+            calls.append("c_es5<%s,%d,%d,%d>(%du);" % (t, a, b, c, sd()))
     if tier == "quick":
         # stratified sample: every case template at least twice, every element type
         by = {}
